@@ -16,6 +16,7 @@
    Byte strings are Seq(0..255), text is a sequence of code points, "absent" is NONE. *)
 EXTENDS CursorOps, TLC
 
+CONSTANT CharsetClass(_)   \* trusted: what a charset label (bytes) names: "utf8", "bogus" (no such charset) or "other"
 CONSTANT DelimWithCRLF    \* design switch.  TRUE: after the first boundary the delimiter is CRLF "--" boundary
                           \* (RFC 7578, 4.1).  FALSE is the wrong design kept for the vacuity run.
 
@@ -174,13 +175,6 @@ UNKNOWN == <<-2>>
 DispIndex(form, v) ==
     LET I == {i \in 1..Len(form) : EncDisp(form[i]) = v} IN IF I = {} THEN 0 ELSE CHOOSE i \in I : TRUE
 FNameOf(p) == IF p.fkind = 0 THEN NONE ELSE p.fname
-FieldsOf(form, hdr) ==
-    LET v == HeaderVal(hdr, H_DISP_LC)
-        k == DispIndex(form, v)
-    IN  IF v = NONE THEN [name |-> NONE, fname |-> NONE]
-        ELSE IF k > 0 THEN [name |-> form[k].name, fname |-> FNameOf(form[k])]
-        ELSE [name |-> UNKNOWN, fname |-> UNKNOWN]
-
 (* well-formed UTF-8 (Unicode 15, table 3-7): shortest forms only, no surrogates, <= U+10FFFF.
    Text is represented by its UTF-8 encoding, so "decodes to t" reads "is well formed and equals
    Utf8Seq(t)". *)
@@ -206,6 +200,65 @@ Utf8Valid(s) ==
                 /\ (n > 1 => SecondOk(s[i], s[i + 1]))
                 /\ \A k \in 2..(n - 1) : Cont(s[i + k])
                 /\ (i + n <= Len(s) => ~Cont(s[i + n]))
+
+(* code points of a well-formed UTF-8 string (no recursion: the lead bytes are selected, each one
+   gives its code point) *)
+CpAt(s, i) ==
+    LET n == SeqLen(s[i])
+    IN  CASE n = 1 -> s[i]
+          [] n = 2 -> (s[i] - 192) * 64 + (s[i + 1] - 128)
+          [] n = 3 -> (s[i] - 224) * 4096 + (s[i + 1] - 128) * 64 + (s[i + 2] - 128)
+          [] OTHER -> (s[i] - 240) * 262144 + (s[i + 1] - 128) * 4096 + (s[i + 2] - 128) * 64 + (s[i + 3] - 128)
+Utf8Decode(s) ==
+    LET L == SelectSeq([i \in 1..Len(s) |-> i], LAMBDA i : ~Cont(s[i]))
+    IN  [k \in 1..Len(L) |-> CpAt(s, L[k])]
+
+(* ---- RFC 8187 / 5987 extended value  charset ' language ' value-chars ---------------------- *)
+(* Only read for damaged bodies (an undamaged Content-Disposition is the encoder's and decodes to
+   the encoded part).  PERR: the accessor must raise the parse error.  LAX t: the accessor reports
+   exactly t, or raises the parse error.  UNKNOWN: left open (the value is not an ext-value a strict
+   reader can interpret: unbalanced quotes, characters outside the token sets, a malformed escape,
+   a charset this specification has no decoder for). *)
+PERR == <<-3>>
+Lax(t) == <<-4>> \o t
+IsLax(f) == Len(f) > 0 /\ f[1] = -4
+HexVal(c) == IF c >= 48 /\ c <= 57 THEN c - 48 ELSE IF c >= 65 /\ c <= 70 THEN c - 55
+             ELSE IF c >= 97 /\ c <= 102 THEN c - 87 ELSE -1
+WordChar(c) == (c >= 48 /\ c <= 57) \/ (c >= 65 /\ c <= 90) \/ (c >= 97 /\ c <= 122) \/ c = 95
+PctOk(s) == \A i \in 1..Len(s) : s[i] = 37 => (i + 2 <= Len(s) /\ HexVal(s[i + 1]) >= 0 /\ HexVal(s[i + 2]) >= 0)
+PctDecode(s) ==          \* precondition PctOk(s); escapes cannot overlap (hex digits are not "%")
+    LET K == SelectSeq([i \in 1..Len(s) |-> i],
+                       LAMBDA i : ~((i > 1 /\ s[i - 1] = 37) \/ (i > 2 /\ s[i - 2] = 37)))
+    IN  [k \in 1..Len(K) |-> IF s[K[k]] = 37 THEN 16 * HexVal(s[K[k] + 1]) + HexVal(s[K[k] + 2]) ELSE s[K[k]]]
+ExtFilename(x) ==
+    LET q1    == FindFrom(x, <<39>>, 0)
+        q2    == FindFrom(x, <<39>>, q1 + 1)
+        label == Slice(x, 0, q1)
+        lang  == Slice(x, q1 + 1, q2)
+        val   == Slice(x, q2 + 1, Len(x))
+    IN  IF \/ q1 >= Len(x) \/ q2 >= Len(x) \/ label = <<>> \/ val = <<>>
+           \/ \E i \in 1..Len(x) : x[i] < 33 \/ x[i] > 126 \/ x[i] \in {34, 59, 92}
+           \/ \E i \in 1..Len(label) : ~(WordChar(label[i]) \/ label[i] = 45)
+           \/ \E i \in 1..Len(lang) : ~WordChar(lang[i])
+           \/ ~PctOk(val)
+          THEN UNKNOWN
+        ELSE CASE CharsetClass(label) = "utf8"  -> (IF Utf8Valid(PctDecode(val)) THEN Lax(Utf8Decode(PctDecode(val))) ELSE PERR)
+               [] CharsetClass(label) = "bogus" -> PERR
+               [] OTHER -> UNKNOWN
+
+V_STARKEY == <<59, 32, 102, 105, 108, 101, 110, 97, 109, 101, 42, 61>>            \* ; filename*=
+ExtPrefix(p) == V_FD \o Utf8Seq(p.name) \o QUOTE \o V_STARKEY
+
+FieldsOf(form, hdr) ==
+    LET v == HeaderVal(hdr, H_DISP_LC)
+        k == DispIndex(form, v)
+        X == {i \in 1..Len(form) : form[i].fkind = 2 /\ IsPrefix(ExtPrefix(form[i]), v)}
+    IN  IF v = NONE THEN [name |-> NONE, fname |-> NONE]
+        ELSE IF k > 0 THEN [name |-> form[k].name, fname |-> FNameOf(form[k])]
+        ELSE IF X # {} /\ Utf8Valid(v)                 \* (a value that is not UTF-8 cannot be read at all: open)
+          THEN LET p == form[CHOOSE i \in X : TRUE]      \* name intact, the extended file name was damaged
+               IN  [name |-> p.name, fname |-> ExtFilename(Drop(v, Len(ExtPrefix(p))))]
+        ELSE [name |-> UNKNOWN, fname |-> UNKNOWN]
 
 (* ====================================================================== *)
 (* State machine                                                           *)
